@@ -3,6 +3,7 @@
    and chunk lines are the parsers of Properties_C01/C02 (shared code); an error in the response head
    is flagged, so it is reported invalid even on the last byte of a read. *)
 From Via Require Import M_Char M_Parse M_Receive P_Parse.
+From Via Require Import P_Frag.
 From Via Require Import M_Client P_Client.
 Local Open Scope N_scope.
 
@@ -51,6 +52,27 @@ Theorem C07_client_connect_starts_clean : forall o k rf, k_connected k = false -
   k_transmitting k1 = false /\ k_disc_pending k1 = false /\ k_shutdown_sent k1 = false.
 Proof. exact client_connect_starts_clean. Qed.
 
+(* ---- the response head and the chunk ---- *)
+Theorem C07_response_head_fragments : forall L q a b, rp_ok q ->
+  rp_parse L q (a ++ b) =
+  match rp_parse L q a with
+  | (q1, ra, Done) => (q1, ra ++ b, Done)
+  | (q1, ra, Fail) => (q1, ra ++ b, Fail)
+  | (q1, _, More) => rp_parse L q1 b
+  end.
+Proof. exact rp_parse_app. Qed.
+
+Theorem C07_chunk_fragments : forall L k a b, rc_ok k ->
+  rc_parse L k (a ++ b) =
+  match rc_parse L k a with
+  | (k1, ra, Done) => (k1, ra ++ b, Done)
+  | (k1, ra, Fail) => (k1, ra ++ b, Fail)
+  | (k1, _, More) => rc_parse L k1 b
+  end.
+Proof. exact rc_parse_app. Qed.
+
 Print Assumptions C07_status_line_fragments.
 Print Assumptions C07_field_line_fragments.
 Print Assumptions C07_client_connect_starts_clean.
+Print Assumptions C07_response_head_fragments.
+Print Assumptions C07_chunk_fragments.
